@@ -40,13 +40,16 @@ sh(f"git -C {wt} stash pop")
 ran.append({"cmd": "demo.py without change", "exit": d0.returncode})
 demo_ok = d1.returncode != 0 and d0.returncode == 0
 verdicts = {}
-if sh("git -C /repo status --porcelain").stdout.strip():
-    sys.exit("/repo not clean")
-ap = sh(f"git -C /repo apply {out/'patch.diff'}")
+# Run the checks against the seeded tree.  Equivalent to `git -C /repo apply patch.diff` + run + undo,
+# but through SUPERREC2_REPO so that /repo itself stays clean while other work is going on.
+seeded = Path("/tmp/seeded_repo")
+sh(f"rm -rf {seeded}; git -C /repo worktree prune; git -C /repo worktree add -q --detach {seeded} HEAD")
+ap = sh(f"git -C {seeded} apply {out/'patch.diff'}")
 assert ap.returncode == 0, ap.stderr
+cenv = dict(os.environ, SUPERREC2_REPO=str(seeded))
 try:
     for c in checks:
-        r = sh(f"cd /verif && ./check {c}", timeout=3000)
+        r = sh(f"cd /verif && ./check {c}", timeout=3000, env=cenv)
         line = [l for l in r.stdout.splitlines() if l.startswith(("VIOLATION", "OK", "KNOWN"))]
         verdicts[c] = {"exit": r.returncode, "lines": line[-2:]}
         for l in line:
@@ -57,7 +60,7 @@ try:
                 except Exception:
                     pass
 finally:
-    sh("git -C /repo checkout -- .")
+    sh(f"git -C /repo worktree remove --force {seeded}")
     sh("rm -f /verif/replays/*.json")
     for c in checks:  # evidence written against the patched tree is not evidence
         sh(f"git -C /verif checkout -- evidence/{c}.json")
